@@ -130,7 +130,7 @@ def configs(tier):
         dict(dq, ops=["indexed", "pow", "grad", "prod", "sum", "variable", "gderiv", "cderiv"], coords=["x", "const"]),
         # tuples with Piola mapped and mixed members on the immersed triangle (the built element then has a
         # MixedPullback; physical sizes 3, reference sizes 2),
-        mk("derivatives-immersed", "triangle", 3, [["RT", 3], P1, ["mixed", [["N1", 2], P2]]], (1, 2, 3), [(2, 0)], idx=(10,), ops=("indexed", "pow", "grad", "prod", "sum", "gderiv"), derivs=[(2, 1), (1, 3), (3, 2, 1)], ascoded="fails"),
+        mk("derivatives-immersed", "triangle", 3, [["RT", 3], P1, ["mixed", [["N1", 3], P2]]], (1, 2, 3), [(2, 0)], idx=(10,), ops=("indexed", "pow", "grad", "prod", "sum", "gderiv"), derivs=[(2, 1), (1, 3), (3, 2, 1)], ascoded="fails"),
         # with symmetric and mixed members; shape derivatives of integrands with symmetric / mixed coefficients,
         mk("derivatives-sym", "triangle", 2, [["sym", [P1, P3, P2]], P1, ["mixed", [V2, P3]], V3], (1, 2, 3), [(2, 0)], idx=(10,), ops=("indexed", "pow", "grad", "prod", "sum", "gderiv", "cderiv"), derivs=[(2, 1), (1, 3), (3, 2)], dirs=(4,), ascoded="fails"),
         # on an interval (directions of degree 3 and 2; the model's degree of a shape derivative is only a bound there)
